@@ -478,21 +478,25 @@ def api_level(chk, binp, rng, thorough):
     # default ignorable) must not change how the cluster is normalized
     ctx_cases = []
     pick = list(range(0, len(strings), max(1, len(strings) // (2400 if thorough else 600))))
-    sufs = [[0x78], [0x78, 0xFE00], [0x78, 0x78, 0xFE00, 0x78], [0x78, 0x034F], [0x20, 0x78, 0xFE0F]]
+    # (prefix, suffix): what precedes (incl. a cluster that gets recomposed, which shortens the out-buffer)
+    # and what follows the cluster
+    ctxs = [([], [0x78]), ([], [0x78, 0xFE00]), ([], [0x78, 0x78, 0xFE00, 0x78]), ([], [0x78, 0x034F]), ([], [0x20, 0x78, 0xFE0F]),
+            ([0x65, 0x301], []), ([0x65, 0x301, 0x78], [0x78]), ([0x41, 0x30A, 0x65, 0x301], []), ([0xE9, 0x323, 0x78], []), ([0x78], [0x65, 0x301])]
     for k in pick:
         kind, rep, text = strings[k]
         if o_t[k] is None:
             continue
-        suf = sufs[(k // 7) % len(sufs)]
-        ctx_cases.append((k, set(rep) | set(suf), text + suf))
-    o_c = shape_many(binp, [(r, t) for _, r, t in ctx_cases])
+        pre, suf = ctxs[(k // 7) % len(ctxs)]
+        extra_chars = set(pre) | set(suf) | set(closure(set(nfd(pre + suf)))) | set(nfd(pre + suf))
+        ctx_cases.append((k, set(rep) | extra_chars, pre + text + suf, len(pre)))
+    o_c = shape_many(binp, [(r, t) for _, r, t, _ in ctx_cases])
     f3 = []
-    for (k, rep, text), o in zip(ctx_cases, o_c):
+    for (k, rep, text, npre), o in zip(ctx_cases, o_c):
         n = len(strings[k][2])
         if o is None:
             f3.append(("string-panics", "context", rep, text, o, None))
             continue
-        head = [g for g, c in o if c < n]
+        head = [g for g, c in o if npre <= c < npre + n]
         f3.append((k, rep, text, head))
     # second pass: the clusters alone with the enlarged repertoires
     alone = shape_many(binp, [(rep, strings[k][2]) for k, rep, text, head in [x for x in f3 if len(x) == 4]])
